@@ -236,7 +236,7 @@ def meta_columns(snap):
   for i, ref in enumerate(cols["ids"]):
     out[ref] = {"table": tname.get(_i(cc["parentId"][i])), "col": _s(cc["colId"][i]), "type": _s(cc["type"][i]) or "",
                 "isFormula": bool(cc["isFormula"][i]), "reverseCol": _i(cc["reverseCol"][i]),
-                "summarySourceCol": _i(cc["summarySourceCol"][i])}
+                "summarySourceCol": _i(cc["summarySourceCol"][i]), "formula": _s(cc["formula"][i]) or ""}
   return out
 
 
@@ -517,14 +517,29 @@ def oracle_c11(h, rec):
         st["c11_type_switches"] = st.get("c11_type_switches", 0) + 1
     if bad:
       tainted.add(key)
-      sig = classify_c11(actions, before, pb.get(key), px, py, after)
+      sig = classify_c11(actions, before, pb.get(key), px, py, after, rec.get("res"))
       h._find("C11", sig, "; ".join(x[2] for x in bad[:3]), rec)
   if changed_any:
     rec["nontrivial"] = True
 
 
-def classify_c11(actions, before, pbefore, px, py, after=None):
+SIG_C11_TRIGGER = ("one side of the two-way pair is a data column with a trigger (default-value) formula: a cell value "
+                   "computed by that formula is written without updating the other side")
+
+
+def classify_c11(actions, before, pbefore, px, py, after=None, res=None):
   tables = {px[0], py[0]}
+  if after is not None and res is not None and res.raw_stored:
+    mc = meta_columns(after)
+    trig = set((c["table"], c["col"]) for c in mc.values() if not c["isFormula"] and c["formula"])
+    direct = list(res.direct or [])
+    for side in (px, py):
+      if (side[0], side[1]) in trig:
+        # attributed only when THIS bundle's calculation wrote the column (a stored, non-direct update of it)
+        for i, a in enumerate(res.raw_stored):
+          if a[0] in ("UpdateRecord", "BulkUpdateRecord") and a[1] == side[0] and side[1] in a[3] and \
+              not (i < len(direct) and direct[i]):
+            return SIG_C11_TRIGGER
   for ua in actions:
     if ua[0] in ("BulkUpdateRecord",) and ua[1] in tables and isinstance(ua[2], list) \
         and len(set(ua[2])) < len(ua[2]):
